@@ -73,6 +73,72 @@ def assign_ids(rng, st, ids):
     return (lbl, ids.pop(), kids)
 
 
+BIG_IDS = [2 ** 31, 2 ** 53 + 1, 2 ** 63 - 1, 2 ** 63, 2 ** 64, 10 ** 25]
+
+
+def id_pool(rng, profile):
+    """profile 0: distinct small ids; 1: id 0 present (as in the first tree of a fresh process);
+    2: very large ids present; 3: both"""
+    ids = list(range(1, 60)); rng.shuffle(ids)
+    extra = ([0] if profile in (1, 3) else []) + (rng.sample(BIG_IDS, 3) if profile in (2, 3) else [])
+    # the extra ids are popped first: root / early nodes get them
+    tail = ids[:40]
+    for e in extra:
+        tail.insert(rng.randint(max(0, len(tail) - 4), len(tail)), e)
+    return tail
+
+
+def set_id(st, path, i):
+    lbl, _id, ch = st
+    if not path:
+        return (lbl, i, ch)
+    return (lbl, _id, [set_id(c, path[1:], i) if k == path[0] else c for k, c in enumerate(ch)])
+
+
+def st_at(st, path):
+    for k in path:
+        st = st[2][k]
+    return st
+
+
+def shape(st):
+    return (st[0], None if st[2] is None else [shape(c) for c in st[2]])
+
+
+def duplicate_ids(rng, st):
+    """give two STRUCTURALLY DIFFERENT nodes the same id (what sharing a node and its replace_path
+    successor in one tree produces); returns (st, True) when such a pair exists"""
+    paths = list(all_paths(st)); rng.shuffle(paths)
+    for p in paths:
+        for q in paths:
+            if p != q and shape(st_at(st, p)) != shape(st_at(st, q)):
+                return set_id(st, q, st_at(st, p)[1]), True
+    return st, False
+
+
+def st_of(t):
+    return (t.value, t.id, None if t.children is None else [st_of(c) for c in t.children])
+
+
+def corpus_structs():
+    """fixed cases that must pass: witnesses of the fixed findings, node id 0, a node together with its
+    replace_path successor (same ids, different structure) in one tree"""
+    out = []
+    out.append((w_struct(W_TOJSON_MUT["tree"]), w_ops(W_TOJSON_MUT["ops"])))
+    out.append((w_struct(W_TOJSON_CHILD["tree"]), w_ops(W_TOJSON_CHILD["ops"])))
+    full = [((), ("to_json", 0)), ((), ("pickle", 0)), ((), ("str", 0)), ((), ("kp", 2)), ((), ("to_json", 0))]
+    out.append((("<start>", 0, None), full))
+    out.append((("<start>", 7, [("<a>", 0, None)]), full + [((0,), ("pickle", 0))]))
+    out.append((("<start>", 0, [("<a>", 10 ** 25, [("<b>", 2 ** 64, [("x", 2 ** 63, [])])])]), full))
+    # x := 1 ; x := 2 in miniature: b2 = b1.replace_path(...) keeps b1's id, both below one root
+    b1 = T("<b>", [T("y", [], id=31), T("<c>", [T("0", [], id=33), T("<c>", [], id=34)], id=32)], id=30)
+    b2 = b1.replace_path((1,), T("<c>", [T("", [], id=36)], id=35))
+    assert b2.id == b1.id and str(b1) != str(b2)
+    t = T("<start>", [T("<a>", [b1, T("<a>", [b2], id=41)], id=40)], id=42)
+    out.append((st_of(t), full + [((0, 1), ("to_json", 0)), ((0, 0), ("pickle", 0))]))
+    return out
+
+
 def build(st):
     lbl, i, ch = st
     return T(lbl, None if ch is None else [build(c) for c in ch], id=i)
@@ -229,8 +295,29 @@ def exec_history(graph, st, ops, want_flat=True):
     return outs, (f_obj(t, ref, graph) if want_flat else None), plain, t
 
 
+def walk(t, pre=()):
+    """pre-order (path, node) through .children only: no lru_cache'd method, no hashing, no __eq__"""
+    yield pre, t
+    for i, c in enumerate(t.children or ()):
+        yield from walk(c, pre + (i,))
+
+
 def same_tree(a, b):
-    return a == b and str(a) == str(b) and [n.id for _, n in a.paths()] == [n.id for _, n in b.paths()]
+    """decoded tree a against a pristine copy b of the original: node by node labels, ids (type int), open
+    flags and arity; same string; find_node answers the same for every id (id 0 included); a == b"""
+    na, nb = list(walk(a)), list(walk(b))
+    if [p for p, _ in na] != [p for p, _ in nb]:
+        return False
+    for (_, x), (_, y) in zip(na, nb):
+        if (x.value, x.id, x.children is None) != (y.value, y.id, y.children is None) or type(x.id) is not int:
+            return False
+    if str(a) != str(b) or not (a == b):
+        return False
+    for i in {n.id for _, n in nb}:
+        first = next(p for p, n in nb if n.id == i)
+        if a.find_node(i) != first:
+            return False
+    return True
 
 
 def property_at(graph, st, ops):
@@ -373,7 +460,9 @@ def run(run):
     graph = gg.GrammarGraph.from_grammar(GRAMMAR)
     run.cov["rule"] = (
         "trees: random derivations of a 5-nonterminal grammar (terminals with quote, backslash, non-ASCII, "
-        "astral, newline, epsilon in both shapes; open leaves), 2-14 nodes, random distinct ids; histories of "
+        "astral, newline, epsilon in both shapes; open leaves), 2-14 nodes; explicit ids: distinct small ids, id 0 "
+        "present, ids >= 2^63 present, and (30%) two structurally different nodes sharing one id; fixed corpus = witnesses "
+        "of the fixed findings, id-0 trees, a node with its replace_path successor in one tree; histories of "
         "1-8 operations {str,len,hash,structural_hash,is_open,k_paths(k,potential),to_json,pickle round trip} at "
         "random nodes; non-trivial = history has a cache computation before a serialisation. SMT: literals of "
         "0-7 characters from a nasty pool (quote, backslash, u, braces, NUL, newline, 0x80-0xFF, >0xFF, astral) in "
@@ -387,22 +476,17 @@ def run(run):
         entries = json.load(open(fp)) if os.path.exists(fp) else []
     known = {e["key"]: e for e in entries if e.get("status") == "open"}
 
-    # ---- 0. which behaviour does the implementation have?  (witness replay of the recorded defects) ----
-    mut_present = bool(replay_tree_witness(graph, W_TOJSON_MUT))
-    child_present = bool(replay_tree_witness(graph, W_TOJSON_CHILD))
-    quote_present = replay_smt_witness(W_SMT_QUOTE)
-    latin_present = replay_smt_witness(W_SMT_LATIN1)
-    fx_tree = not (mut_present or child_present)
-    fx_smt = not (quote_present or latin_present)
-    run.cov["mode"] = {"tojson_mutates_live_object": mut_present, "tojson_child_cache_raises": child_present,
-                       "smt_quote_breaks": quote_present, "smt_latin1_changes": latin_present,
-                       "model_flag_tree": fx_tree, "model_flag_smt": fx_smt}
-    present = {"tojson-mutates": mut_present, "tojson-child-cache": child_present,
-               "smt-quote": quote_present, "smt-latin1": latin_present}
-    for key, here in present.items():
-        if here and key in known:
+    # ---- 0. all four C17 findings are FIXED in /repo (f2241d6, 0897eb7): the repaired model is forced.
+    #         The old witnesses are corpus cases that must pass; a regression is a VIOLATION. ----
+    fx_tree = fx_smt = True
+    regress = {"tojson-mutates": bool(replay_tree_witness(graph, W_TOJSON_MUT)),
+               "tojson-child-cache": bool(replay_tree_witness(graph, W_TOJSON_CHILD)),
+               "smt-quote": replay_smt_witness(W_SMT_QUOTE), "smt-latin1": replay_smt_witness(W_SMT_LATIN1)}
+    run.cov["mode"] = {"model_flag_tree": fx_tree, "model_flag_smt": fx_smt, "fixed_witness_regressed": regress}
+    for key, here in regress.items():
+        if here and key in known:           # only if a coordinator re-opens an entry
             run.known(known[key]["what"])
-    unknown_present = [k for k, here in present.items() if here and k not in known]
+    unknown_present = [k for k, here in regress.items() if here and k not in known]
 
     violations = []      # property failures not covered by an open finding
     disagreements = []   # model != implementation
@@ -414,19 +498,35 @@ def run(run):
     cases, meta = [], []
     hist = {k: 0 for k in OPS}
     hist.update({"raise": 0, "ok": 0, "property_fail_known": 0})
+    corpus = corpus_structs()
+    idhist = {"has_id_0": 0, "has_id_ge_2^63": 0, "duplicate_ids_different_structure": 0,
+              "id_0_and_serialised": 0, "duplicate_and_serialised": 0}
     for ci in range(n_hist):
-        st0 = gen_struct(rng, "<start>", rng.randint(2, 5), [rng.randint(2, 9)])
-        n = count_nodes((st0[0], 0, st0[1])) if False else None
-        ids = list(range(1, 60)); rng.shuffle(ids)
-        st = assign_ids(rng, st0, ids)
-        if count_nodes(st) > 14:
-            continue
-        paths = list(all_paths(st))
-        ops = []
-        for _ in range(rng.randint(1, 8)):
-            p = () if rng.random() < 0.45 else rng.choice(paths)
-            kind = rng.choices(OPS, weights=[2, 2, 2, 2, 2, 4, 2, 4, 3])[0]
-            ops.append((p, (kind, rng.randint(1, 3) if kind in ("kp", "ckp") else 0)))
+        if ci < len(corpus):
+            st, ops = corpus[ci]
+            profile, dup = "corpus", False
+        else:
+            st0 = gen_struct(rng, "<start>", rng.randint(2, 5), [rng.randint(2, 9)])
+            profile = rng.choice([0, 1, 1, 2, 3])
+            st = assign_ids(rng, st0, id_pool(rng, profile))
+            if count_nodes(st) > 14:
+                continue
+            dup = False
+            if rng.random() < 0.3:
+                st, dup = duplicate_ids(rng, st)
+            paths = list(all_paths(st))
+            ops = []
+            for _ in range(rng.randint(1, 8)):
+                p = () if rng.random() < 0.45 else rng.choice(paths)
+                kind = rng.choices(OPS, weights=[2, 2, 2, 2, 2, 4, 2, 4, 3])[0]
+                ops.append((p, (kind, rng.randint(1, 3) if kind in ("kp", "ckp") else 0)))
+        all_ids = [n[1] for n in (st_at(st, p) for p in all_paths(st))]
+        idhist["has_id_0"] += 0 in all_ids
+        idhist["has_id_ge_2^63"] += any(i >= 2 ** 63 for i in all_ids)
+        idhist["duplicate_ids_different_structure"] += bool(dup) or (profile == "corpus" and len(set(all_ids)) < len(all_ids))
+        ser_root = any(o[0] in SERIAL for _, o in ops)
+        idhist["id_0_and_serialised"] += (0 in all_ids) and ser_root
+        idhist["duplicate_and_serialised"] += (len(set(all_ids)) < len(all_ids)) and ser_root
         outs, final, _, timpl = exec_history(graph, st, ops)
         tref = build(st)
         cases.append(f"({g_tree(tref)}, [{'; '.join(g_op(p, o) for p, o in ops)}], "
@@ -456,6 +556,7 @@ def run(run):
                 violations.append({"kind": "serialisation damages or changes the tree", "tree": repr(st),
                                    "ops": [[list(p), o[0], o[1]] for p, o in ops], "failures": fails})
     run.cov["history_histogram"] = hist
+    run.cov["id_histogram"] = idhist
     run.cov["python_seconds_histories"] = round(time.time() - t_start, 1)
     ok_def = ("fun c : tree * list (path * op) * list (res (list Z)) * list Z => let '(t, ops, outs, fin) := c in "
               f"case_ok (fun _ _ => 1%Z) (fun _ _ _ => 1%N) {g_bool(fx_tree)} t ops outs fin")
